@@ -29,6 +29,45 @@ RULE = (
 ASSUMPTIONS = ["object-typed schemas carry a title; documents are served through json_ref_dict's loader from memory"]
 
 
+def norm_element(x, depth=0):
+    """Structural form of an element tree with statham's normal-form aliases identified: Nothing() == False == Not(Element())
+    ("accept nothing") and Element() == True ("accept anything")."""
+    from statham.schema.constants import NotPassed
+    from statham.schema.elements import Element, Not, Nothing
+    from statham.schema.property import _Property
+
+    if depth > 40:
+        return "<deep>"
+    if x is False or isinstance(x, Nothing):
+        return "<F>"
+    if x is True:
+        return "<T>"
+    if isinstance(x, NotPassed):
+        return "<NP>"
+    if isinstance(x, ObjectMeta):
+        pub = {k: norm_element(v, depth + 1) for k, v in vars(x).items() if not k.startswith("_") and not callable(v) or isinstance(v, Element)}
+        props = {n: (norm_element(p.element, depth + 1), p.required, p.source) for n, p in (x.properties or {}).items()}
+        return ("class", x.__name__, tuple(sorted(pub.items(), key=repr)), tuple(sorted(props.items(), key=repr)))
+    if isinstance(x, Element):
+        if type(x) is Not and norm_element(x.element, depth + 1) == "<T>":
+            return "<F>"
+        items = {k: norm_element(v, depth + 1) for k, v in vars(x).items() if not k.startswith("_")}
+        pd = getattr(x, "_properties", None)
+        if isinstance(pd, dict):
+            items["properties"] = tuple(sorted(((n, (norm_element(p.element, depth + 1), p.required, p.source)) for n, p in pd.items()), key=repr))
+        trivial = type(x) is Element and all(v in ("<NP>", "<T>") or (k == "uniqueItems" and v == "<F>") for k, v in items.items())
+        return "<T>" if trivial else ("elem", type(x).__name__, tuple(sorted(items.items(), key=repr)))
+    if isinstance(x, _Property):
+        return ("prop", norm_element(x.element, depth + 1), x.required, x.source)
+    if isinstance(x, list):
+        return tuple(norm_element(v, depth + 1) for v in x)
+    if isinstance(x, dict):
+        return tuple(sorted(((k, norm_element(v, depth + 1)) for k, v in x.items()), key=repr))
+    if isinstance(x, bool):
+        return ("bool", x)
+    return (type(x).__name__, repr(x))
+
+
 def parse_doc(schema):
     return parse(docs.load(schema))
 
@@ -66,6 +105,14 @@ def trip(st, schema, label, rank):
     else:
         # identical documents must also mean identical behaviour (the weaker, behavioural reading of "equal element":
         # Nothing() and Not(Element()) are different objects with the same document and the same meaning)
+        try:
+            same = bool(e2[0] == e1[0]) or norm_element(e2[0]) == norm_element(e1[0])
+        except Exception:
+            same = False
+        if not same:
+            # (compared up to the normal-form aliases Nothing() / False / Not(Element()) and Element() / True)
+            ok = False
+            st.violation("reparsed-element-not-equal", "%s: parse(serialize(E1)) != E1 although the documents are identical: a keyword value the document does not carry was lost (%r vs %r)" % (label, e1[0], e2[0]), {"schema": schema, "s1": s1}, rank)
         for v in VAL.V_SMALL:
             k1, r1 = impl.do_call(e1[0], v)
             k2, r2 = impl.do_call(e2[0], v)
